@@ -149,3 +149,19 @@ Example slip10_vector_1 :
   /\ derive_path_sha512 [0; 2 ^ 32] root = Crash "OverflowError"
   /\ derive_path_sha512 [2 ^ 31] root = derive_path_sha512 [0] root.
 Proof. vm_compute. repeat split. Qed.
+
+(* non-vacuity of the implications above: a path prefix that derives (derive_path_app_ok), a facade path whose indices are all in
+   [0, 2^31) (derive_one_slip10 / derive_path_slip10 / harden_is_add), a node with a 32-byte key and the NEM key pair made of it
+   (key_pair_secret_is_node_key_nem, nem_private_key_property_is_reversed) *)
+Example premises_nonvacuous :
+  let root := from_seed_sha512 default_curve (of_hex "000102030405060708090a0b0c0d0e0f") in
+  match derive_path_sha512 [44] root with
+  | Ok m => derive_path_sha512 ([44] ++ [7]) root = derive_path_sha512 [7] m
+  | _ => False
+  end
+  /\ forallb (fun i => (0 <=? i) && (i <? 2 ^ 31)) (symbol_bip32_path (of_string "mainnet") 7) = true
+  /\ length (private_key root) = 32%nat
+  /\ nem_bip32_node_to_key_pair (fun k => k) root = Ok {| signing_secret := private_key root; public_key := private_key root |}
+  /\ nem_key_pair_private_key {| signing_secret := private_key root; public_key := [] |} = Ok (rev (private_key root)).
+Proof. vm_compute. repeat split; reflexivity. Qed.
+Print Assumptions premises_nonvacuous.
